@@ -64,6 +64,7 @@ type Contract struct {
 	Abstract     bool // body not verified (interface / extern)
 	Lemmas       []*Clause
 	Provenance   []string // interface-typed parameters that carry the fidRef they were loaded from
+	Logical      [][2]string // logical (universally quantified) variables of the contract: name, type
 	BridgeEnsures []*Clause // assumed at call sites, not proved against the body (abstraction bridge)
 	Impls        bool     // interface contract: every implementation in /repo is verified against it
 	IfaceType    types.Type
@@ -312,6 +313,14 @@ func ParseContracts(file, text, pkg string, out *ContractSet) error {
 			cur.Results = splitTop(rest, ',')
 		case "ghost":
 			cur.Ghost = append(cur.Ghost, rest)
+		case "logical":
+			// logical name type, name type : universally quantified over the whole contract
+			for _, d := range splitTop(rest, ',') {
+				f := strings.Fields(d)
+				if len(f) == 2 {
+					cur.Logical = append(cur.Logical, [2]string{f[0], f[1]})
+				}
+			}
 		case "impls":
 			cur.Impls = true
 		case "provenance":
@@ -870,15 +879,24 @@ func layoutLines(t string, fs [][2]string) []string {
 	if len(lits) == 1 && strings.HasPrefix(lits[0], "-:") {
 		parse = lits[0][2:]
 	}
-	modl := "type:" + t + ", $rd, b.overflow, b.data"
+	modl := "$rd, b.overflow, b.data"
+	whole := false
+	for _, f := range fs {
+		if f[0] == "-" {
+			whole = true
+		} else {
+			modl += ", self." + f[0]
+		}
+	}
+	if whole {
+		modl += ", fields(self)"
+	}
 	var subs []string
 	for sb := range mods {
 		subs = append(subs, sb)
 	}
 	sort.Strings(subs)
-	for _, sb := range subs {
-		modl += ", type:" + sb
-	}
+	_ = subs
 	return []string{
 		"//@ define wf_" + t + "(m " + t + ") bool = " + strings.Join(wf, " && "),
 		"//@ define enc_" + t + "(s seq, m " + t + ") seq = " + encW,
